@@ -26,3 +26,4 @@ def rules(ctx):
     S.leaf_width_rules(ctx)
     S.relocate_tree_rules(ctx)
     S.relocation_content_rules(ctx)
+    S.oldest_search_rules(ctx)
